@@ -13,6 +13,8 @@ Init == st \in [Accts -> {Absent} \cup 0..MAXU] /\ actor \in Accts /\ actions = 
 Next == Len(actions) < MaxActs /\ \E a \in Acts : actions' = Append(actions, a) /\ UNCHANGED <<st, actor>>
 Spec == Init /\ [][Next]_mcvars
 
+Sym == Permutations(Accts)     \* accounts are interchangeable (model values in the cfg)
+
 InvExec       == ExecAgrees(st, actor, actions, MAXU)
 InvSim        == SimAgrees(st, actor, actions, MAXU)
 InvChain      == ChainAgrees(st, actor, actions, MAXU)
